@@ -194,7 +194,7 @@ def _freshness(rec, case):
     import pyiga
     stage = os.path.dirname(os.path.dirname(os.path.abspath(pyiga.__file__)))
     script = os.path.join(stage, 'scripts', 'generate-assemblers.py')
-    tmp = tempfile.mkdtemp(prefix='c13fresh-', dir=os.environ.get('VERIF_SCRATCH') or None)
+    tmp = tempfile.mkdtemp(prefix='c13fresh-', dir=os.environ.get('VERIF_SCRATCH_RUN') or None)
     try:
         os.makedirs(os.path.join(tmp, 'scripts')); os.makedirs(os.path.join(tmp, 'pyiga'))
         shutil.copy(script, os.path.join(tmp, 'scripts', 'generate-assemblers.py'))
@@ -254,7 +254,7 @@ def _modname(rec, case):
         try: srcs.append(C.generate(build.make_vform(d)))
         except Exception: continue
     srcs += [srcs[0] + '\n', srcs[0] + ' ', srcs[1].replace('0', '1', 1), '', 'x']
-    tmp = tempfile.mkdtemp(prefix='c13mod-')
+    tmp = tempfile.mkdtemp(prefix='c13mod-', dir=os.environ.get('VERIF_SCRATCH_RUN') or None)
     try:
         json.dump(srcs, open(os.path.join(tmp, 'srcs.json'), 'w'))
         open(os.path.join(tmp, 'child.py'), 'w').write(_MODNAME_CHILD)
